@@ -24,7 +24,7 @@ class Scenario:
         return b
 
 
-def execute(sc, fixed=None, log=None):
+def execute(sc, fixed=None, log=None, fixed_sched=None):
     """compile + symbolically execute; returns (machine, module, timings).
     Multi-threaded scenarios are executed twice: a first run discovers the visible operations and ranks their key
     paths; the second run uses those ranks as constant positions so that window tests simplify."""
@@ -36,7 +36,7 @@ def execute(sc, fixed=None, log=None):
         m = _execute1(sc, mod, fixed, None, None)
         posmap = m.sched.ranks
         try:
-            m = _execute1(sc, mod, fixed, posmap, log)
+            m = _execute1(sc, mod, fixed, posmap, log, fixed_sched=fixed_sched)
         except Exception as e:
             from . import mt
             if not isinstance(e, mt.MissingKey): raise
@@ -47,11 +47,12 @@ def execute(sc, fixed=None, log=None):
     return m, mod, {'compile_s': ct, 'exec_s': time.time() - t0, 'ir_path': path}
 
 
-def _execute1(sc, mod, fixed, posmap, log, strict=False):
+def _execute1(sc, mod, fixed, posmap, log, strict=False, fixed_sched=None):
     term.reset()
     m = Machine(mod, nthreads=max(1, sc.threads), unwind=sc.unwind, unwind_map=sc.unwind_map)
     m.uninit_zero = sc.uninit_zero
     m.posmap = posmap
+    m.fixed_sched = fixed_sched if posmap is not None else None
     m.tolerant = bool(sc.mt and posmap is None and not strict)
     if fixed: m.fixed = dict(fixed)
     m.run_ctors()
